@@ -10,6 +10,12 @@ cell, the judged functions are called on it (and judged by judge_pairs with the 
 changed in place through a public setter and only then the case proper is evaluated; and on the documented input forms
 (read-only / column-major / integer-typed arrays, whole-number positions that Atoms stores as integers).
 
+Every case is expressed in a LENGTH UNIT: cell vectors, origin and positions are all multiplied by 10^k (k = 0 in 3 of 8
+cases, else -12..6; 1e-10 = a crystal in SI metres, which atomman's working units may be).  The docstrings of the five
+entry points state no length unit and no absolute tolerance (checked in dvect.pyx, dmag.pyx, displacement.py,
+System.dvect/dmag: none in the code either; Box's clean-up of vector components is relative, 1e-9 max|vects|), so the
+same oracles apply, and every tolerance below is relative to the size of the cell (sc) or dimensionless.
+
 Tolerances (derived, no calibration constant):
   every candidate component  d0_j + x b0_j + y b1_j + z b2_j  is formed with <= 4 roundings of quantities bounded
   by  sc = |d0| + |b0| + |b1| + |b2|,  so atomman's and my value of the same image differ by <= 4 eps sc per
@@ -25,7 +31,8 @@ from .. import gens, gens_c02
 from ..oracles import nearest_image as NI
 
 RULE = ("cells as C01 (LAMMPS triangular form, lengths 0.5-50, tilts up to 1.5 lengths, crystal families, optional rigid "
-        "rotation and origin), plus dyadic cells (all arithmetic exact, exact ties and faces) and integer cells with "
+        "rotation and origin), every one expressed in a length unit 10^k (cell vectors, origin and positions multiplied by it; "
+        "k = 0 in 3 of 8 cases, else -12..6 with SI metres 1e-10 favoured; all tolerances relative to the cell size), plus dyadic cells (all arithmetic exact, exact ties and faces) and integer cells with "
         "integer-valued float Cartesian points; point sets one-to-one / one-to-many (either side) / many-to-many, 70 % "
         "inside [0,1]^3 (faces included), 30 % in [-3,4]^3, partly built as 'near partner wrapped through a face'; "
         "inputs spelled as ndarray / strided view / column-major / read-only / int-typed ndarray / list / tuple / int-typed list, "
@@ -138,7 +145,8 @@ def mutate_box(box, system, how, cell, pbcw):
         how = 'set_vects'           # those three describe LAMMPS-oriented cells only
     if system is None and (how.startswith('sys_') or how == 'wrap'):
         raise HarnessError('history %r needs a System' % how)
-    lx, ly, lz, xy, xz, yz = (float(cell[k]) for k in ('lx', 'ly', 'lz', 'xy', 'xz', 'yz'))
+    unit = float(cell.get('scale', 1.0))
+    lx, ly, lz, xy, xz, yz = (float(cell[k]) * unit for k in ('lx', 'ly', 'lz', 'xy', 'xz', 'yz'))
     if how == 'vects=':
         box.vects = Vt
         box.origin = ot
@@ -199,6 +207,29 @@ def set_positions(system, P, S, how, moved_by_scale):
     return how
 
 
+def unit_labels(unit):
+    """labels for the length unit 10^k the case is expressed in"""
+    if unit == 1.0:
+        return {'unit_1'}
+    labs = {'scaled'}
+    if unit <= 1e-7:
+        labs.add('unit<=1e-7')      # squared lengths below 1e-10 (SI metres: 1e-20)
+    elif unit < 1.0:
+        labs.add('unit_1e-6..0.1')
+    else:
+        labs.add('unit>=10')
+    return labs
+
+
+def nt_unit_labels(labs):
+    """non-trivial cases per class of length unit"""
+    if 'nt' in labs:
+        for u in ('unit_1', 'unit<=1e-7', 'unit_1e-6..0.1', 'unit>=10'):
+            if u in labs:
+                labs.add('nt_' + u)
+    return labs
+
+
 def wrap_pbc(i):
     """periodicity for a history wrap(): never all three periodic, so that the box is extended"""
     return PBCS[i % 7]
@@ -255,6 +286,9 @@ class Setup:
         hist = case.get('hist')
         cart = case['cart']
         A0, A1 = np.array(case['p0'], dtype=float), np.array(case['p1'], dtype=float)
+        self.unit = float(c.get('scale', 1.0))
+        if cart:        # Cartesian positions are given in units of the cell's length scale
+            A0, A1 = A0 * self.unit, A1 * self.unit
         self.n0, self.n1 = len(A0), len(A1)
         self.natoms = self.n0 + self.n1
         whole = cart and bool(np.all(A0 == np.rint(A0)) and np.all(A1 == np.rint(A1)))
@@ -298,8 +332,11 @@ class Setup:
                 # (since fix 2a7c2bf Atoms stores whole-number input as floats; integer storage is labelled when it still occurs)
                 self.labs.add('int_stored_positions' if self.system.atoms.pos.dtype.kind in 'iu' else 'int_given_positions')
         # ---- history on these objects
+        self.labs |= unit_labels(self.unit)
         if hist is not None:
             self.labs.add('hist')
+            if float(hist['cell'].get('scale', 1.0)) != self.unit and how != 'wrap':
+                self.labs.add('hist_other_unit')
             Vf, of = np.array(self.box.vects, dtype=float), np.array(self.box.origin, dtype=float)
             if hist.get('peek'):
                 _peek(self.box)
@@ -503,7 +540,7 @@ def oracle_lattice(case):
                 labs.add('nt_mixed')
             if np.any((n != 0).sum(axis=1) >= 2):
                 labs.add('multi_axis_shift')
-    return labs
+    return nt_unit_labels(labs)
 
 
 def oracle_best27(case):
@@ -518,7 +555,7 @@ def oracle_best27(case):
         if not any(pbc):
             err = np.abs(d - S.D0).max(axis=1)
             require(bool(np.all(err <= S.atol)), lambda: '%s: no periodic axis but d != p1 - p0 (max diff %.3g)' % (where, err.max()))
-    return labs
+    return nt_unit_labels(labs)
 
 
 def oracle_mag(case):
@@ -547,7 +584,7 @@ def oracle_mag(case):
             raise Violation('%s: pair %d: dmag = %.17g is longer than candidate #%d of length %.17g' % (where, i, m[i], j, L27[i, j]))
         require(bool(np.all(m >= 0)), lambda: '%s: negative distance %r' % (where, m))
         nontrivial_labels(L27, Ld, S.atol, pbc, labs)
-    return labs
+    return nt_unit_labels(labs)
 
 
 def oracle_true_nearest(case):
@@ -615,7 +652,7 @@ def oracle_true_nearest(case):
                         % (where, i, res['vec'].tolist(), res['n'].tolist(), d[i].tolist(), err, atol))
             else:
                 labs.add('tie')
-    return labs
+    return nt_unit_labels(labs)
 
 
 def _same_choice(a, b, L27, atol):
@@ -630,7 +667,7 @@ def _same_choice(a, b, L27, atol):
     return None
 
 
-def _judge_displacement(am, sys0, sys1, ref, pbcs, pbc_other, labs, final=True):
+def _judge_displacement(am, sys0, sys1, ref, pbcs, pbc_other, labs, final=True, unit=1.0):
     """displacement(sys0, sys1, ref) in the state the two systems are in NOW, for each periodicity setting in `pbcs` of the
     reference system (the other one keeps pbc_other)"""
     box0, box1 = sys0.box, sys1.box
@@ -684,7 +721,7 @@ def _judge_displacement(am, sys0, sys1, ref, pbcs, pbc_other, labs, final=True):
                 labs.add('nt_boxes_differ')
             if 'hist_changed' in labs:
                 labs.add('nt_hist_changed')
-            if ('int_stored_0' in labs or 'int_given_0' in labs) and np.any(np.abs(disp - np.rint(disp)) > 1e-3):
+            if ('int_stored_0' in labs or 'int_given_0' in labs) and np.any(np.abs(disp / unit - np.rint(disp / unit)) > 1e-3):
                 labs.add('nt_int0_fractional')
     refsys.pbc = pbc_other
 
@@ -697,14 +734,22 @@ def oracle_displacement(case):
     itype = case.get('itype')
     build = case.get('build', 'abs')
     R = [np.array(case['rel0'], dtype=float), np.array(case['rel1'], dtype=float)]
-    ints = [cart and itype in ('0', 'both'), cart and itype in ('1', 'both')]
+    unit = float(c[0].get('scale', 1.0))
+    if cart:        # Cartesian positions are given in units of the cells' common length scale
+        R = [R[0] * unit, R[1] * unit]
+    # whole numbers stay whole in a unit 10^k >= 1 only; otherwise the same positions are ordinary floats
+    ints = [cart and itype in ('0', 'both') and bool(np.all(R[0] == np.rint(R[0]))),
+            cart and itype in ('1', 'both') and bool(np.all(R[1] == np.rint(R[1])))]
     ref = case['ref']
     labs = {'mode_' + case['mode'], 'ref_' + str(ref)}
     labs |= {'cell0_' + l for l in gens.cell_labels(c[0])}
+    labs |= unit_labels(unit)
     pbc_other = PBCS[case['pbc_other']]
     hows = [None, None]
     if hist is not None:
         labs.add('hist')
+        if any(float(hist['cell%d' % k].get('scale', 1.0)) != unit for k in (0, 1)):
+            labs.add('hist_other_unit')
         hows = [hist['how0'], hist['how1']]
         for k in (0, 1):
             if ints[k] and hows[k] not in _STILL:
@@ -766,8 +811,8 @@ def oracle_displacement(case):
         if ref is not None and np.abs(np.array(systems[refk].box.vects) - V_first[refk]).max() > 1e-6 * np.abs(V_first[refk]).max():
             labs.add('hist_changed')
     # ---- the judged state
-    _judge_displacement(am, sys0, sys1, ref, PBCS, pbc_other, labs)
-    return labs
+    _judge_displacement(am, sys0, sys1, ref, PBCS, pbc_other, labs, unit=unit)
+    return nt_unit_labels(labs)
 
 
 _ROUTES = {'route_sys_idx': 0.1, 'route_sys_pos': 0.05, 'route_sys_mix': 0.045}
@@ -776,7 +821,10 @@ _SHAPES = {'shape_1-N': 0.12, 'shape_N-1': 0.12, 'shape_N-N': 0.12, 'shape_1-1':
 # through each public way (guards at about half the observed share)
 _HIST = {'hist': 0.2, 'hist_changed': 0.18, 'hist_warm_changed': 0.13, 'hist_wrap': 0.02, 'hist_sys_box_set_scale': 0.018,
          'hist_sys_box_set': 0.015, 'hist_vects=': 0.05, 'hist_set_vects': 0.025}
-_COMMON = dict(_ROUTES, **_SHAPES, **_HIST, nt=0.36, nt_mixed=0.36, tilted=0.33, rotated=0.19, origin=0.23, kind_dyadic=0.06,
+# length unit 10^k of the whole case (cell, origin, positions): non-trivial cases in every class of unit
+_UNITS = {'nt_unit_1': 0.15, 'unit<=1e-7': 0.085, 'nt_unit<=1e-7': 0.065, 'nt_unit_1e-6..0.1': 0.05, 'unit>=10': 0.055,
+          'nt_unit>=10': 0.04, 'hist_other_unit': 0.02}
+_COMMON = dict(_ROUTES, **_SHAPES, **_HIST, **_UNITS, nt=0.36, nt_mixed=0.36, tilted=0.33, rotated=0.19, origin=0.23, kind_dyadic=0.06,
                kind_intcart=0.045)
 _FORMS = {'spell_fview': 0.03, 'spell_tuple': 0.03, 'spell_list': 0.03, 'spell_intlist': 0.03, 'spell_readonly': 0.03,
           'spell_forder': 0.03, 'spell_intarray': 0.03, 'int_given_positions': 0.013}
@@ -797,14 +845,15 @@ CLAUSES = [
     Clause('true_nearest', oracle_true_nearest, gens_c02.premise_heavy, quick=10000, thorough=160000,
            min_share={'nt': 0.35, 'premise_tilted': 0.2, 'premise_tilted_wrapped': 0.1, 'premise_ortho': 0.2,
                       'premise_fails_incell': 0.2, 'premise_onface': 0.19, 'unique_vector_checked': 0.4, 'tie': 0.02,
-                      'beyond27': 0.08, 'kind_dyadic': 0.08, 'hist_changed': 0.18, 'hist_warm_changed': 0.13},
+                      'beyond27': 0.08, 'kind_dyadic': 0.08, 'hist_changed': 0.18, 'hist_warm_changed': 0.13, **_UNITS},
            desc='both points in the cell and (cell orthogonal or L* < half the smallest perpendicular width) => |d| equals the '
                 'minimum L* of an exhaustive lattice search (vector too when the minimiser is unique); always |d| >= L*'),
     Clause('displacement', oracle_displacement, gens_c02.displacement_cases, quick=8000, thorough=120000,
            min_share={'nt': 0.3, 'nt_pbc_differ': 0.3, 'nt_boxes_differ': 0.2, 'ref_initial': 0.14, 'ref_default': 0.07,
                       'ref_None': 0.07, 'ref_final': 0.2, 'hist': 0.2, 'hist_changed': 0.15, 'nt_hist_changed': 0.12,
                       'hist_warm': 0.07, 'hist_wrap': 0.03, 'hist_sys_box_set_scale': 0.05, 'int_given_0': 0.1,
-                      'int_given_1': 0.035, 'nt_int0_fractional': 0.05, 'build_scale': 0.06, 'build_safecopy': 0.07},
+                      'int_given_1': 0.035, 'nt_int0_fractional': 0.05, 'build_scale': 0.06, 'build_safecopy': 0.07,
+                      **dict(_UNITS, hist_other_unit=0.04)},
            desc="displacement(s0, s1, box_reference) under 'final'/default, 'initial', None: lattice + 27-candidate oracles under "
                 'the reference cell and pbc, and equal to dvect atom by atom; all 8 pbc of the reference system; systems holding '
                 'whole-number positions as integers, built with scale=True / safecopy / a shared Box, or changed in place before'),
